@@ -2,7 +2,7 @@
 # runs every claimed property's check in the given tier, one after the other (development convenience)
 cd /verif
 tier=${1:-quick}
-for p in C19 C16 C10 C17 C13 C05 C06 C07 C09 C03 C02 C04 C01 C08 C14 C15 C20; do
+for p in C19 C18 C16 C10 C17 C13 C05 C06 C07 C09 C03 C02 C04 C01 C08 C14 C11 C12 C15 C20; do
   s=$(date +%s)
   ./check $p --tier $tier > /tmp/official_${tier}_$p.out 2>&1
   echo "$p exit=$? wall=$(( $(date +%s) - s ))s $(grep -c '^KNOWN-FINDING' /tmp/official_${tier}_$p.out) known"
